@@ -33,6 +33,7 @@ type schedule struct {
 	Dir       string  `json:"dir"`
 	Plan      string  `json:"plan"` // "small" | "big"
 	RcvCW     bool    `json:"rcv_closewrite"` // the receiver has half-closed (CloseWrite) before the records arrive
+	SeqStart  float64 `json:"seq_start"`      // != 0: sequence number of this direction when the planned records are written
 	ID        int     `json:"id"`
 }
 
@@ -54,14 +55,26 @@ func (h *hookTrace) sink(e gmtls.VerifEvent) {
 	}
 	m := map[string]interface{}{"ev": e.Ev, "hc": id}
 	switch e.Ev {
+	case "setseq":
+		m["seq"] = seq8(e.Seq)
 	case "enc":
-		m["seq"], m["typ"], m["iv"], m["len"] = e.Seq, e.Typ, ints(e.IV), e.Len
+		m["seq"], m["typ"], m["iv"], m["len"] = seq8(e.Seq), e.Typ, ints(e.IV), e.Len
 	case "dec":
-		m["seq"], m["typ"], m["ok"], m["alert"] = e.Seq, e.Typ, e.OK, e.Alert
+		m["seq"], m["typ"], m["ok"], m["alert"] = seq8(e.Seq), e.Typ, e.OK, e.Alert
 	case "seterr":
-		m["seq"], m["err"] = e.Seq, e.Err
+		m["seq"], m["err"] = seq8(e.Seq), e.Err
 	}
 	h.ev = append(h.ev, m)
+}
+
+// a sequence number as its 8 big-endian bytes (the trace specification counts in bytes: TLC integers are 32-bit)
+func seq8(v uint64) []int {
+	b := make([]int, 8)
+	for i := 7; i >= 0; i-- {
+		b[i] = int(v & 0xff)
+		v >>= 8
+	}
+	return b
 }
 
 // register makes the two half connections of c part of the current trace (call before Handshake)
@@ -259,6 +272,10 @@ func runSchedule(s *schedule) (obs c07Obs, err error) {
 		back.mu.Lock()
 		otherDir = cloneRec(back.seen[len(back.seen)-1])
 		back.mu.Unlock()
+	}
+	if s.SeqStart != 0 {
+		// the same schedule far into the connection: the counters of this direction stand just below 2^32
+		gmtls.VerifSetSeq(snd, rcv, uint64(s.SeqStart))
 	}
 	writes, recs := c07Plan(suite, s.Plan)
 	d.mu.Lock()
